@@ -9,6 +9,7 @@ ENGINE = "undo"
 LEAN_MODULES = ["RtoscModel.Props.C15"]
 THEOREMS = ["Rtosc.Undo.reachable_wf", "Rtosc.Undo.seek_back_emits", "Rtosc.Undo.seek_fwd_emits",
             "Rtosc.Undo.seek_clamped", "Rtosc.Undo.record_truncates_redo", "Rtosc.Undo.window_is_two",
+            "Rtosc.Undo.tmpSize_is_256", "Rtosc.Undo.fits_iff_short",
             "Rtosc.Undo.merge_within_window", "Rtosc.Undo.append_outside_window",
             "Rtosc.Undo.merge_or_append_exhaustive", "Rtosc.Undo.cap_retained",
             "Rtosc.Undo.undo_all_restores", "Rtosc.Undo.redo_all_restores",
@@ -16,34 +17,69 @@ THEOREMS = ["Rtosc.Undo.reachable_wf", "Rtosc.Undo.seek_back_emits", "Rtosc.Undo
 HARNESS = {"src": ["undo.cpp"], "deps": ["common.h"]}
 STATELESS = True
 RULE = ("one case = one whole history on a fresh UndoHistory: 0..60 operations record(address,tag,old,new) / "
-        "seek(+-k) / advance-clock over 1..6 addresses (occasionally 30) and the tags i f c, clock steps 0..5 s so "
-        "that the 2 s merge window is hit on both sides and exactly, seeks of +-1..3, +-25, +-100 and INT_MIN/INT_MAX, "
-        "most histories value-chained (old = current value) and closed by undo-all/redo-all; a second stream runs "
-        "end to end (events produced by rParam/rParamI ports through rCAPPLY, undo messages dispatched back, object "
-        "fields printed after every step); a small stream uses addresses around the 247-byte limit of the 256-byte "
-        "message buffer, the empty address and one address with changing tags. Non-trivial = at least one record "
-        "and one seek; distinct = distinct op line")
-ASSUMPTIONS = ["event messages are '/undo_change' 's<t><t>' path old new with <t> in i f c (what rCAPPLY emits)",
-               "time() is the harness clock (interposed); |time_t| < 2^53 so difftime is exact",
-               "the property clauses are claimed for addresses whose set-message fits the library's 256-byte buffer "
-               "(shorter than 248 bytes); longer ones are only compared with the model",
+        "seek(+-k) / advance-clock and the tags i f c, clock steps 0..5 s so that the 2 s merge window is hit on both "
+        "sides and exactly, seeks of +-1..3, +-25, +-100 and INT_MIN/INT_MAX, most histories value-chained (old = "
+        "current value) and closed by undo-all/redo-all. Addresses: 1..6 short names (occasionally 30), and in about "
+        "40 % of the abstract histories a near-miss family: addresses of 24..247 bytes (every length class up to the "
+        "247-byte limit of the 256-byte message buffer) that share a prefix of >= 24/32/64/128/200 bytes and differ in "
+        "the last byte, in the middle, right after the common prefix, or where one is a proper prefix of the other; "
+        "long addresses are recorded repeatedly inside and outside the window, undone, redone, truncated and pushed "
+        "over the 20-event cap (25..40 addresses differing in their last two bytes). Clock origin: 60 % of the lines "
+        "start with T ops that move the clock from the harness default 1 000 000 to a present-day value (1.6e9..2.1e9), "
+        "to 2^31 / 2^32 / 2^24 +- 70 s (crossed during the line), below zero, or to a random value in +-2^33. A second "
+        "stream runs end to end (events produced by rParam/rParamI ports through rCAPPLY, undo messages dispatched "
+        "back, object fields printed after every step); a small stream has the empty address, one address with "
+        "changing tags, and histories outside the claimed domain (address >= 248 bytes, clock stepping backwards after a "
+        "record), which are run under the sanitizers but whose output is not compared (`ood`). Non-trivial = at "
+        "least one record and one seek; distinct = distinct op line")
+ASSUMPTIONS = ["event messages are '/undo_change' 's<t><t>' path old new with <t> in i f c (what rCAPPLY emits); payloads "
+               "of other widths (h d t, strings, blobs) are not generated and not modelled",
+               "clock source: the library reads the wall clock through time(), clock_gettime() (hence libstdc++'s "
+               "std::chrono::system_clock/steady_clock), gettimeofday() or timespec_get() - all four are interposed by "
+               "the harness and return the harness clock in whole seconds; a clock obtained in any other way (raw "
+               "syscall, rdtsc, std::chrono::high_resolution_clock of another runtime) would not be controlled and "
+               "would show up as oracle failures; |time_t| < 2^53 so difftime is exact",
+               "claimed domain: every address of the history is shorter than 248 bytes (its set-message fits the library's "
+               "256-byte buffer: Rtosc.Undo.fits_iff_short, tmpSize_is_256) and the clock does not move backwards "
+               "after the first recorded event. Histories outside it are executed (sanitizers, crash = failure) but "
+               "neither compared with the model nor judged by the oracle; what the library does there (a zeroed "
+               "buffer handed to the callback on rewind, nothing on replay; negative ages always merge) is mirrored "
+               "by the model but is no obligation",
                "'merge into one' is read as: the most recent applied event of that address absorbs the new one in "
-               "place (first old value, last new value, time stamp renewed)",
+               "place (first old value, last new value, time stamp renewed, so a run of changes each within 2 s of the "
+               "previous one is one undo step); an implementation that moved the merged event to the newest position or "
+               "counted the window from the first event of the run would be reported as a difference",
                "the model mirrors undo-history.cpp with fixes/C15-merge-scan.patch applied"]
 TRUSTED = ["hand-written model RtoscModel/Undo.lean of UndoHistory::recordEvent/seekHistory, "
            "UndoHistoryImpl::mergeEvent/rewind/replay; std::deque as a list",
            "translator tools/props/c15.py:translate_undo_consts (max_history_size, merge window, tmp size)",
-           "rtosc_amessage/rtosc_argument move 4-byte payloads bit for bit (covered by C01)"]
+           "rtosc_amessage/rtosc_argument move 4-byte payloads bit for bit (covered by C01)",
+           "interposition of time/clock_gettime/gettimeofday/timespec_get by the harness executable (self-tested at "
+           "start-up, including through std::chrono)"]
 LEVEL_TEXT = ("Lean theorems (seek_back_emits, seek_fwd_emits, seek_clamped, record_truncates_redo, merge_within_window, "
               "append_outside_window, cap_retained, undo_all_restores, redo_all_restores, chain_invariant_reachable, "
               "undo_redo_roundtrip) hold for all histories of any length over the model of undo-history.cpp; the constants "
-              "20 / 2 s / 256 are regenerated from the source on every run; the model is compared with the compiled "
-              "implementation (ASan/UBSan, controlled clock) on thousands of generated histories per run, and an "
-              "independent Python reference of the property is evaluated on the implementation's output")
-TECHNIQUE = "Lean 4 model + theorems; correspondence testing against the sanitized build with interposed time(); reference oracle"
+              "20 / 2 s / 256 are regenerated from the source on every run and pinned by cap_retained, window_is_two and "
+              "tmpSize_is_256 (fits_iff_short: the domain hypothesis AddrsFit is exactly 'address shorter than 248 bytes'); "
+              "the model is compared with the compiled implementation (ASan/UBSan, controlled clock at present-day, "
+              "2^31, 2^32 and negative origins) on thousands of generated histories per run, and an independent Python "
+              "reference of the property is evaluated on the implementation's output")
+LEVEL_NOTE = ("not proved / weaker than the prose: (1) the end-to-end theorem chain_invariant_reachable is about the "
+              "hand-written application step Undo.App.step (a port reports a change with the true old value), not about "
+              "C14's Lean model of the rParam callbacks; that the real rParam/rParamI ports behave like App.step is only "
+              "tested (E lines: four ports, two char and two int fields). (2) Events carry 32-bit payloads only (i f c). "
+              "(3) merge_within_window is stated with `now - t <= 2`, which includes negative ages because the code "
+              "does; the check makes no claim about a clock stepping backwards. (4) tmpSize_is_256 is an equality on "
+              "purpose: enlarging the buffer also fails it, and the domain statement then has to be re-issued. "
+              "Trusted: Lean kernel; the hand-written model is tied to the code by differential execution only")
+TECHNIQUE = ("Lean 4 model + theorems; correspondence testing against the sanitized build with interposed "
+             "time()/clock_gettime()/gettimeofday(); reference oracle")
 
 MAX_HISTORY = 20      # the numbers of the property statement (NOT read from the source)
 WINDOW = 2
+DOMAIN_ADDR_LIMIT = 248   # claimed domain: addresses shorter than this (set-message fits 256 bytes);
+                          # Rtosc.Undo.fits_iff_short / tmpSize_is_256 tie it to the regenerated constant
+CLOCK0 = 1000000      # where the harness clock and the model clock start on every line
 INT_MIN, INT_MAX = -2147483648, 2147483647
 
 
@@ -114,7 +150,8 @@ class Ref:
         self.clock = 0
         self.store = {a: 0 for a, _ in PORTS}
         self.stats = {"merge": 0, "merge_not_newest": 0, "append": 0, "cap_drop": 0, "truncate": 0,
-                      "window_exact": 0, "clamped_seek": 0}
+                      "window_exact": 0, "clamped_seek": 0, "merge_addr_ge_96": 0, "merge_addr_36_95": 0,
+                      "append_next_to_near_miss": 0, "max_abs_clock": 0}
 
     def record(self, addr, tag, old, new):
         if self.pos < len(self.ev):
@@ -131,15 +168,24 @@ class Ref:
             self.stats["merge"] += 1
             if last != len(self.ev) - 1:
                 self.stats["merge_not_newest"] += 1
+            if len(addr) >= 96:
+                self.stats["merge_addr_ge_96"] += 1
+            elif len(addr) >= 36:
+                self.stats["merge_addr_36_95"] += 1
             e = self.ev[last]                        # first old value, last new value
             e["new"], e["tag"], e["t"] = new, tag, self.clock
         else:
             self.stats["append"] += 1
+            # measured: a *different* address sharing >= 24 leading bytes was touched within the window
+            if len(addr) >= 24 and any(x["addr"] != addr and x["addr"][:24] == addr[:24] and
+                                       self.clock - x["t"] <= WINDOW for x in self.ev):
+                self.stats["append_next_to_near_miss"] += 1
             self.ev.append({"addr": addr, "tag": tag, "old": old, "new": new, "t": self.clock})
             if len(self.ev) > MAX_HISTORY:           # only the 20 most recent are retained
                 self.ev.pop(0)
                 self.stats["cap_drop"] += 1
         self.pos = len(self.ev)
+        self.stats["max_abs_clock"] = max(self.stats["max_abs_clock"], abs(self.clock + CLOCK0))
 
     def seek(self, k):
         dest = self.pos + k
@@ -197,17 +243,37 @@ def parse_ops(op):
     return w[0], out
 
 
+def out_of_domain(ops):
+    """The histories the property is NOT claimed for (harness and driver print `ood` for them and
+    nothing is compared; the implementation is still run under the sanitizers):
+    an address whose set-message does not fit the 256-byte buffer, or a clock that is moved
+    backwards after the first recorded event (negative ages: 'within two seconds' says nothing)."""
+    recorded = False
+    for o in ops:
+        if o[0] == "R":
+            if len(o[1]) >= DOMAIN_ADDR_LIMIT:
+                return True
+            recorded = True
+        elif o[0] == "P":
+            recorded = True
+        elif o[0] == "T" and o[1] < 0 and recorded:
+            return True
+    return False
+
+
 def expected(op, ref=None):
     """Expected output line according to the property; None where the property makes no claim."""
     p = parse_ops(op)
     if p is None:
         return None
     mode, ops = p
+    if out_of_domain(ops):
+        return None
     r = ref or Ref()
     toks = []
     for o in ops:
         if o[0] == "R":
-            if len(o[1]) > 247 or o[2] not in "ifc" or 0 in o[1]:
+            if o[2] not in "ifc" or 0 in o[1]:
                 return None
             r.record(o[1], o[2], o[3], o[4])
             toks.append(r.pz())
@@ -236,7 +302,7 @@ def expected(op, ref=None):
 
 def oracle(op, out):
     exp = expected(op)
-    if exp is None:
+    if exp is None:      # outside the claimed domain: only "does not crash" is demanded
         return "implementation crashed: " + out if out.startswith("crash") else None
     if out == exp:
         return None
@@ -260,6 +326,106 @@ INTS = [0, 1, 2, 7, 64, 127, 128, 255, 0x7fffffff, 0x80000000, 0xffffffff]
 FLOATS = [0x00000000, 0x80000000, 0x3f800000, 0xbf800000, 0x3fa00000, 0x40000000, 0x7f800000, 0x7fc00000,
           0x7f800001, 0x00000001]
 CHARS = [0, 1, 64, 127, 128, 255, 0x181, 0xffffff80]
+
+
+# ---- near-miss address families -------------------------------------------------------
+# Addresses of one family have the same long prefix and differ late: in the last byte, in the
+# middle, in the first byte after a 24/32/64/128/200-byte common prefix, or one is a proper
+# prefix of the other.  Lengths cover the whole claimed range (up to 247 bytes).
+FAMILY_LENGTHS = [24, 25, 28, 31, 32, 33, 36, 40, 48, 60, 63, 64, 65, 80, 95, 96, 97, 100, 127, 128, 129, 160,
+                  200, 239, 240, 243, 244, 245, 246, 247]
+SEGS = [b"part", b"kit", b"adpars", b"VoicePar", b"volume", b"panning", b"filter", b"env", b"lfo", b"freq",
+        b"x", b"global", b"PFilterVelocityScale"]
+
+
+def path_of_len(rng, n):
+    """a '/'-separated path of exactly n >= 2 bytes in the style of a real parameter address"""
+    out = b""
+    while len(out) < n:
+        out += b"/" + rng.choice(SEGS) + (b"%d" % rng.randint(0, 15) if rng.random() < 0.5 else b"")
+    out = out[:n]
+    return out[:-1] + b"q" if out.endswith(b"/") else out
+
+
+def flip(rng, b, i):
+    c = bytearray(b)
+    alt = [x for x in b"abcdefgxyz0123456789" if x != c[i]]
+    c[i] = rng.choice(alt)
+    return bytes(c)
+
+
+def family(rng, stats, length=None):
+    ln = length or (rng.choice(FAMILY_LENGTHS) if rng.random() < 0.8 else rng.randint(24, 247))
+    base = path_of_len(rng, ln)
+    var = [base, flip(rng, base, ln - 1), flip(rng, base, ln // 2), flip(rng, base, ln - 2)]
+    for pfx in (24, 32, 64, 128, 200):
+        if pfx < ln:
+            var.append(flip(rng, base, pfx))                        # exactly pfx common leading bytes
+            var.append(flip(rng, base, rng.randint(pfx, ln - 1)))   # at least pfx
+    var += [base[:-1], base[:-4], base[:ln - rng.randint(1, min(8, ln - 2))]]      # proper prefixes
+    if ln > 32:
+        var.append(base[:rng.choice([24, 32])])
+    for ext in (b"x", b"/sub", b"0"):
+        if ln + len(ext) < DOMAIN_ADDR_LIMIT:
+            var.append(base + ext)
+    seen, out = set(), []
+    for v in var:
+        if v not in seen and len(v) >= 1:
+            seen.add(v)
+            out.append(v)
+    b = "family_len_%s" % ("24-35" if ln < 36 else "36-95" if ln < 96 else "96-239" if ln < 240 else "240-247")
+    stats[b] = stats.get(b, 0) + 1
+    return base, out
+
+
+def family_pool(rng, stats, many=False):
+    """(address, tag) pool drawn from one family; `many`: 25..40 addresses that differ only in
+    their last two bytes (for crossing the 20-event cap)."""
+    if many:
+        ln = rng.choice([26, 34, 40, 66, 98, 130, 247])
+        base = path_of_len(rng, ln - 2)
+        k = "family_many"
+        stats[k] = stats.get(k, 0) + 1
+        return [(base + b"%02d" % i, rng.choice("ifc")) for i in range(rng.choice([25, 30, 40]))]
+    base, var = family(rng, stats)
+    k = rng.randint(2, min(6, len(var)))
+    pool = rng.sample(var, k)
+    if rng.random() < 0.5 and base not in pool:
+        pool[0] = base
+    if rng.random() < 0.25:
+        pool.append(rng.choice(NAMES))                      # a short unrelated address in between
+    return [(a, rng.choice("ifc")) for a in pool]
+
+
+# ---- clock origin ----------------------------------------------------------------------
+def origin_ops(rng, stats):
+    """Leading T ops moving the clock from CLOCK0 to the line's origin: present-day values,
+    around 2^31 and 2^32 (also crossed during the line), around 2^24 (where `float` stops
+    being exact), before the epoch, and the harness default."""
+    r = rng.random()
+    if r < 0.40:
+        kind, target = "default", CLOCK0
+    elif r < 0.60:
+        kind, target = "present", rng.randint(1600000000, 2100000000)
+    elif r < 0.70:
+        kind, target = "2^31", 2 ** 31 + rng.choice([-rng.randint(0, 70), rng.randint(0, 1000), -1, 0])
+    elif r < 0.78:
+        kind, target = "2^32", 2 ** 32 + rng.choice([-rng.randint(0, 70), rng.randint(0, 1000), -1, 0])
+    elif r < 0.84:
+        kind, target = "2^24", 2 ** 24 + rng.choice([-rng.randint(0, 70), rng.randint(0, 10 ** 6), -1, 0, 1])
+    elif r < 0.92:
+        kind, target = "negative", -rng.choice([rng.randint(0, 70), rng.randint(1, 10 ** 6), rng.randint(1, 2 ** 31),
+                                                2 ** 31 + rng.randint(-70, 70), 2 ** 32 + rng.randint(-70, 70)])
+    else:
+        kind, target = "random", rng.randint(-2 ** 33, 2 ** 33)
+    stats["origin_" + kind] = stats.get("origin_" + kind, 0) + 1
+    d = target - CLOCK0
+    toks = []
+    while d:
+        st = max(-10 ** 9, min(10 ** 9, d))
+        toks += ["T", str(st)]
+        d -= st
+    return toks
 
 
 def rand_value(rng, tag):
@@ -286,8 +452,11 @@ def gen_history(rng, stats):
     profile = rng.choice(["merge", "merge", "cap", "mixed", "mixed", "many", "stale"])
     steps = {"merge": [0, 0, 0, 1, 1, 2, 2, 3], "cap": [3, 3, 3, 5, 2, 0], "mixed": [0, 1, 2, 3, 5, 0, 1, 2],
              "many": [0, 0, 1, 3], "stale": [0, 1, 1, 2, 2, 3]}[profile]
+    fam = rng.random() < 0.4
     if profile == "many":
-        pool = [(b"/m%d" % i, rng.choice("ifc")) for i in range(30)]
+        pool = family_pool(rng, stats, many=True) if fam else [(b"/m%d" % i, rng.choice("ifc")) for i in range(30)]
+    elif fam:
+        pool = family_pool(rng, stats)
     else:
         k = rng.randint(1, 6)
         pool = [(n, rng.choice("ifc")) for n in rng.sample(NAMES, k)]
@@ -295,8 +464,10 @@ def gen_history(rng, stats):
     n = rng.choice([0, 1, 2, 3, 5, 8, 13, 21, 22, 30, 40, 60, rng.randint(0, 60)])
     if profile in ("cap", "many"):
         n = rng.choice([30, 45, 60, 60])
+    if fam and max(len(a) for a, _ in pool) > 100:
+        n = min(n, 30)                                        # keep the op lines of long addresses moderate
     cur = {}
-    toks = ["H"]
+    toks = ["H"] + origin_ops(rng, stats)
     stats["profile_" + profile] = stats.get("profile_" + profile, 0) + 1
     for _ in range(n):
         r = rng.random()
@@ -324,18 +495,26 @@ def gen_chained(rng, stats):
     """Histories in which old values are exactly the current value of the address (as a real
     application produces them), seeks included: the generator applies the reference's undo messages."""
     ref = Ref()
-    if rng.random() < 0.3:
+    fam = rng.random() < 0.4
+    r0 = rng.random()
+    if r0 < 0.3 and fam:
+        pool = family_pool(rng, stats, many=True)
+    elif r0 < 0.3:
         pool = [(b"/m%d" % i, rng.choice("ifc")) for i in range(rng.choice([8, 25, 40]))]
+    elif fam:
+        pool = family_pool(rng, stats)
     else:
         k = rng.randint(1, 5)
         pool = [(n, rng.choice("ifc")) for n in rng.sample(NAMES, k)]
     steps = rng.choice([[0, 0, 1, 2, 3], [3, 5], [0, 1, 2], [2, 2, 3, 1]])
     n = rng.choice([5, 10, 22, 30, 45, 60, rng.randint(0, 60)])
     p_rec = rng.choice([0.6, 0.6, 0.8])
-    if len(pool) > 6:
+    if len(pool) > 7:
         n, p_rec = rng.choice([40, 60]), 0.8
+    elif fam and max(len(a) for a, _ in pool) > 100:
+        n = min(n, 30)
     cur = {}
-    toks = ["H"]
+    toks = ["H"] + origin_ops(rng, stats)
     for _ in range(n):
         r = rng.random()
         if r < p_rec:
@@ -363,9 +542,13 @@ def gen_chained(rng, stats):
 def gen_stale(rng, stats):
     """The alignment behind fixes/C15-merge-scan.patch: an older entry is extended (its time
     stamp renewed) while a younger entry of another address keeps an older stamp."""
-    a, b = rng.sample(NAMES, 2)
+    if rng.random() < 0.5:
+        a, b = rng.sample(NAMES, 2)
+    else:
+        a, b = rng.sample(family(rng, stats)[1], 2)           # the two addresses are near misses
     t1, t2, t3 = rng.choice([0, 1, 2]), rng.choice([0, 1, 2]), rng.choice([1, 2, 3])
-    toks = ["H", "R", hx(a), "i", "00000000", "00000001", "T", str(t1), "R", hx(b), "i", "00000000", "00000005",
+    toks = ["H"] + origin_ops(rng, stats) + [
+            "R", hx(a), "i", "00000000", "00000001", "T", str(t1), "R", hx(b), "i", "00000000", "00000005",
             "T", str(t2), "R", hx(a), "i", "00000001", "00000002", "T", str(t3),
             "R", hx(a), "i", "00000002", "00000003"]
     if rng.random() < 0.5:
@@ -377,7 +560,7 @@ def gen_stale(rng, stats):
 def gen_e2e(rng, stats):
     n = rng.choice([3, 8, 15, 25, 40, 60, rng.randint(0, 60)])
     steps = rng.choice([[0, 0, 1, 2, 3], [3, 5], [0, 1, 2], [0]])
-    toks = ["E"]
+    toks = ["E"] + origin_ops(rng, stats)
     for _ in range(n):
         r = rng.random()
         if r < 0.6:
@@ -393,26 +576,59 @@ def gen_e2e(rng, stats):
 
 
 def gen_edge(rng, stats):
-    c = rng.randint(0, 3)
-    if c == 0:      # addresses around the buffer limit (247 fits, 248 does not)
-        ln = rng.choice([240, 243, 244, 246, 247, 248, 249, 251, 252, 300])
+    c = rng.randint(0, 5)
+    org = origin_ops(rng, stats)
+    if c in (0, 4):  # one long address (whole length range, both sides of the 247-byte limit) recorded
+                     # repeatedly inside / outside the window, next to a short one, undone and redone
+        ln = rng.choice([36, 60, 95, 96, 100, 127, 128, 200, 239, 240, 243, 244, 246, 247, 247,
+                         248, 249, 251, 252, 300] if c == 0 else [92, 95, 96, 97, 100, 128, 200, 240, 244, 247])
         addr = b"/" + bytes(rng.choice(b"abcxyz/") for _ in range(ln - 1))
-        toks = ["H", "R", hx(addr), rng.choice("ifc"), "00000001", "00000002", "S", "-1", "S", "1", "S", "-1",
-                "R", hx(b"/a"), "i", "00000000", "00000001", "S", "-2", "S", "2"]
+        if addr.endswith(b"/"):
+            addr = addr[:-1] + b"e"
+        tag = rng.choice("ifc")
+        toks = ["H"] + org + ["R", hx(addr), tag, "00000001", "00000002"]
+        v = 2
+        for _ in range(rng.randint(1, 3)):
+            toks += ["T", str(rng.choice([0, 1, 2, 3, 5]))]
+            if rng.random() < 0.4:
+                toks += ["R", hx(b"/a"), "i", "%08x" % v, "%08x" % (v + 7)]
+            if rng.random() < 0.3:
+                toks += ["S", "-1", "S", str(rng.choice([0, 1]))]
+            toks += ["R", hx(addr), tag, "%08x" % v, "%08x" % (v + 1)]
+            v += 1
+        toks += ["S", "-1", "S", "1", "S", "-1", "R", hx(b"/a"), "i", "00000000", "00000001", "S", "-2", "S", "2",
+                 "S", "-100", "S", "100"]
     elif c == 1:    # empty address
-        toks = ["H", "R", "-", "i", "00000000", "00000009", "T", "1", "R", "-", "i", "00000009", "0000000a",
-                "S", "-1", "S", "1"]
-    elif c == 2:    # clock running backwards
-        toks = ["H", "R", hx(b"/a"), "i", "00000000", "00000001", "T", str(-rng.randint(1, 50)),
-                "R", hx(b"/a"), "i", "00000001", "00000002", "T", "10", "R", hx(b"/a"), "i", "00000002", "00000003",
-                "S", "-3", "S", "3"]
-    else:           # exactly the cap, one more, seeks at the cap
-        toks = ["H"]
+        toks = ["H"] + org + ["R", "-", "i", "00000000", "00000009", "T", "1", "R", "-", "i", "00000009", "0000000a",
+                              "S", "-1", "S", "1"]
+    elif c == 2:    # clock running backwards after a record: outside the claimed domain (run, not compared)
+        toks = ["H"] + org + ["R", hx(b"/a"), "i", "00000000", "00000001", "T", str(-rng.randint(1, 50)),
+                              "R", hx(b"/a"), "i", "00000001", "00000002", "T", "10",
+                              "R", hx(b"/a"), "i", "00000002", "00000003", "S", "-3", "S", "3"]
+    elif c == 3:    # exactly the cap, one more, seeks at the cap; optionally over near-miss addresses
+        toks = ["H"] + org
         m = rng.choice([19, 20, 21, 22, 41])
+        stem = b"/q" if rng.random() < 0.5 else path_of_len(rng, rng.choice([24, 32, 64, 96, 128, 245]))
         for i in range(m):
-            toks += ["R", hx(b"/q%d" % i), "i", "00000000", "%08x" % (i + 1)]
+            toks += ["R", hx(stem + b"%d" % i), "i", "00000000", "%08x" % (i + 1)]
         toks += ["S", str(rng.choice([-20, -21, -19, -100])), "S", str(rng.choice([1, 5, 20])),
                  "R", hx(b"/new"), "f", "3f800000", "40000000", "S", "-100", "S", "100"]
+    else:           # two near-miss addresses changed alternately inside the window: never merged
+        _, var = family(rng, stats)
+        a, b = rng.sample(var, 2)
+        ta, tb = rng.choice("ifc"), rng.choice("ifc")
+        toks = ["H"] + org
+        va = vb = 0
+        for i in range(rng.randint(2, 6)):
+            if rng.random() < 0.6:
+                toks += ["R", hx(a), ta, "%08x" % va, "%08x" % (va + 1)]
+                va += 1
+            else:
+                toks += ["R", hx(b), tb, "%08x" % vb, "%08x" % (vb + 3)]
+                vb += 3
+            if rng.random() < 0.5:
+                toks += ["T", str(rng.choice([0, 1, 1, 2, 3]))]
+        toks += ["S", "-100", "S", "100"]
     stats["edge_%d" % c] = stats.get("edge_%d" % c, 0) + 1
     return toks
 
@@ -438,11 +654,23 @@ def generate(rng, tier, stats):
         stats[toks[0]] += 1
         stats["lines"] += 1
         line = " ".join(toks)
+        for j, t in enumerate(toks):                 # measured: lengths of the recorded addresses
+            if t == "R":
+                ln = 0 if toks[j + 1] == "-" else len(toks[j + 1]) // 2
+                k = "rec_addr_len_" + ("0-23" if ln < 24 else "24-35" if ln < 36 else "36-95" if ln < 96 else
+                                       "96-239" if ln < 240 else "240-247" if ln < 248 else "248+")
+                stats[k] = stats.get(k, 0) + 1
         ref = Ref()                                  # measured distribution: what the reference went through
-        if expected(line, ref) is not None:
+        if expected(line, ref) is None:
+            stats["out_of_domain_lines_run_not_compared"] = stats.get("out_of_domain_lines_run_not_compared", 0) + 1
+        else:
             for kk, v in ref.stats.items():
+                if kk == "max_abs_clock":
+                    stats[kk] = max(stats.get(kk, 0), v)
+                    continue
                 stats[kk] = stats.get(kk, 0) + v
-                if v and kk in ("cap_drop", "merge_not_newest", "truncate", "window_exact"):
+                if v and kk in ("cap_drop", "merge_not_newest", "truncate", "window_exact", "merge_addr_ge_96",
+                                "merge_addr_36_95", "append_next_to_near_miss"):
                     stats["lines_with_" + kk] = stats.get("lines_with_" + kk, 0) + 1
         yield line
 
